@@ -38,7 +38,7 @@ def tla_project(proj, mem):
         d = list(s["dims"]) + [0, 0, 0]
         syms.append({"name": cps(s["name"]), "iid": big(s["iid"]), "scope": cps(s["scope"]), "kind": s["kind"],
                      "t": tla_type(s["type"]), "dims": d[:3], "typeword": s.get("typeword", 0x1000 if s["kind"] == "system" else 0x68),
-                     "sysflag": 1 if s.get("sysflag") else 0, "sc": p32(s.get("sc", 0x04000000)), "access": s.get("access", 0)})
+                     "bitpos": s.get("bitpos", 0), "sysflag": 1 if s.get("sysflag") else 0, "sc": p32(s.get("sc", 0x04000000)), "access": s.get("access", 0)})
     m = [{"key": [cps(k.split("|", 1)[0]), cps(k.split("|", 1)[1])], "b": list(v)} for k, v in sorted(mem.items())]
     return {"name": cps(proj.get("name", "PROG")), "templates": tpls, "symbols": syms}, m
 
